@@ -32,7 +32,7 @@ def one(d, which, tier):
         if p.returncode != 0:
             return sid, {"error": "patch does not apply: " + p.stderr[-300:]}
         subprocess.run(["rsync", "-a", "--exclude", ".git", "--exclude", "replay", "--exclude", "seeded", "--exclude", "neutral",
-                        "--exclude", "hb-*", ROOT + "/", vw + "/"], check=True)
+                        "--exclude", "hb-*", ROOT + "/", vw + "/"], check=False)      # (24 = a file vanished under a concurrent build)
         meta = json.load(open(os.path.join(d, "meta.json"))) if os.path.exists(os.path.join(d, "meta.json")) else {}
         target = meta.get("property")
         if which == "touched" or (which == "target" and not target):
